@@ -69,6 +69,11 @@ def evaluate(case):
         im1, err = packcheck.decode(img1)
         if im1 is None:
             return viol("C16|first-image-undecodable", err)
+        # the source image must hold the input tree (otherwise the round trip below compares two equally wrong images)
+        exp = treegen.expected_tree(spec, mode="packdir")
+        d0 = treegen.diff_trees(exp, sqfsck.canon_tree(im1), ignore=("mtime", "xattrs"))
+        if d0 or im1.violations:
+            return viol("C16|source-image-wrong", "gensquashfs --pack-dir did not produce the input tree, the describe round trip cannot be judged: %s %s" % (d0[:4], im1.violations[:2]))
         work = os.path.join(wd, "work")
         os.makedirs(work)
         argv_d = [T["rdsquashfs"], "-d"] + (["-p", uroot] if uroot else []) + [img1]
@@ -99,6 +104,10 @@ def evaluate(case):
         im2, err = packcheck.decode(img2)
         if im2 is None:
             return viol("C16|second-image-undecodable", err, {"listing.txt": listing})
+        if im1.violations:
+            return viol("C16|first-image-invalid|" + im1.violations[0][0], "the source image is not a valid image: %s" % (im1.violations[:3],), {"listing.txt": listing})
+        if im2.violations:
+            return viol("C16|second-image-invalid|" + im2.violations[0][0], "the image rebuilt from the listing is not a valid image: %s\nlisting:\n%s" % (im2.violations[:3], listing.decode("latin1")[:600]), {"listing.txt": listing})
         a = sqfsck.canon_tree(im1, with_mtime=False)
         b = sqfsck.canon_tree(im2, with_mtime=False)
         a.pop(b"", None)
@@ -216,6 +225,10 @@ def main():
             for ur in uroots[:2]:
                 cases.append(dict(names=[nm], targets=[], unpack_root=ur))
         cases.append(dict(names=DOTS, targets=[b"..", b"...", b"./..a"], unpack_root="out"))
+        # directories with children whose names start with bytes >= 0x80, next to ASCII siblings (the listing names the directory first, its children later:
+        # the parent is looked up again among siblings that sort before and after it)
+        for ur in uroots[:2]:
+            cases.append(dict(names=[b"\xc3\xa9t\xc3\xa9", b"a", b"\xff last", b"z", b"\x80", b"Z"], targets=[b"\xc3\xa9", b"a"], unpack_root=ur))
         # every symlink target of length <= 2, on plain names
         for tg in tgts:
             for ur in uroots[:2]:
